@@ -281,7 +281,8 @@ def _run_both(case):
     kw_wrap = {}
     if nt:
         kw_wrap["time"] = [f"2020-01-{i + 1:02d}" for i in range(nt)]
-    if case["nodata"]["src"] is not None:
+    src_kw = case["nodata"].get("src_via") == "kwarg" and case["nodata"]["src"] is not None
+    if case["nodata"]["src"] is not None and not src_kw:
         kw_wrap["nodata"] = case["nodata"]["src"]
     ychunks = _expand_chunks(case["src_chunks"][0], ny)
     xchunks = _expand_chunks(case["src_chunks"][1], nx)
@@ -293,6 +294,8 @@ def _run_both(case):
     kw = {"resampling": case["resampling"]}
     if case["nodata"]["dst"] is not None:
         kw["dst_nodata"] = case["nodata"]["dst"]
+    if src_kw:
+        kw["src_nodata"] = case["nodata"]["src"]
     kw_da = dict(kw)
     if case["dst_chunks"] is not None:
         kw_da["chunks"] = tuple(case["dst_chunks"])
@@ -622,7 +625,8 @@ def _common(draw, src_shape, dst_shape, resampling="nearest", big_ok=True):
         "dtype": code,
         "nt": nt,
         "tchunk": tchunk,
-        "nodata": {"src": s_nd, "dst": d_nd},
+        # the source nodata is recorded on the array (attribute) or only handed over as src_nodata=
+        "nodata": {"src": s_nd, "dst": d_nd, "src_via": _pick(mix, "ndvia", ["attr", "attr", "kwarg"]) if s_nd is not None else "attr"},
         "src_chunks": src_chunks,
         "dst_chunks": dst_chunks,
         "sched": sched,
@@ -861,6 +865,69 @@ def s_same_wide(draw):
     case["nt"] = 0
     case["nan_blocks"] = 0
     return case
+
+
+# ---- arrays with more than one extra axis
+@st.composite
+def s_layouts(draw):
+    case = draw(s_same_linear(places=["contained", "partial", "partial", "covers"], klasses=["shift_int", "shift_int", "mirror_x", "mirror_y", "mirror_xy"]))
+    case["layout"] = draw(st.sampled_from(["tyxb", "tyxb", "yxb", "tbyx", "btyx"]))
+    case["nt4"] = draw(st.sampled_from([2, 3]))
+    case["nb4"] = draw(st.sampled_from([2, 3, 4]))
+    case["tchunk4"] = draw(st.sampled_from([1, 2, 3]))
+    case["bchunk4"] = draw(st.sampled_from([1, 2, 4]))
+    return case
+
+
+def o_layouts(case, T):
+    """'for every chunking of source and destination': the non-spatial axes are chunked too.  Time before, bands after
+    (or before) the spatial axes, dask blocks that hold several time steps *and* several bands; pixel-aligned grids,
+    so nearest-neighbour values are unambiguous and the chunked result must equal the in-memory one bit for bit."""
+    import dask.array as da
+    import xarray as xr
+
+    from odc.geo.xr import xr_coords, xr_reproject
+
+    if _backend_identity(case["src"]) or _backend_identity(case["dst"]):
+        T.exclude("backend_identity_transform")
+        return
+    sg, dg = _mk_gbox(case["src"]), _mk_gbox(case["dst"])
+    ny, nx = case["src"]["shape"]
+    nt, nb, lay = case["nt4"], case["nb4"], case["layout"]
+    dims_of = {"tyxb": ("time", "Y", "X", "band"), "yxb": ("Y", "X", "band"), "tbyx": ("time", "band", "Y", "X"), "btyx": ("band", "time", "Y", "X")}[lay]
+    ydim, xdim = sg.dimensions
+    dims = tuple({"Y": ydim, "X": xdim}.get(d, d) for d in dims_of)
+    size = {"time": nt, "band": nb, ydim: ny, xdim: nx}
+    shape = tuple(size[d] for d in dims)
+    data = _mk_data(case["dtype"], shape)
+    coords = dict(xr_coords(sg))
+    attrs = {}
+    if case["nodata"]["src"] is not None:
+        attrs["nodata"] = case["nodata"]["src"]
+    ych = _expand_chunks(case["src_chunks"][0], ny)
+    xch = _expand_chunks(case["src_chunks"][1], nx)
+    chunk_of = {"time": _expand_chunks(["r", case["tchunk4"]], nt), "band": _expand_chunks(["r", case["bchunk4"]], nb), ydim: ych, xdim: xch}
+    xx_np = xr.DataArray(data, dims=dims, coords=coords, attrs=attrs)
+    xx_da = xr.DataArray(da.from_array(data.copy(), chunks=tuple(chunk_of[d] for d in dims)), dims=dims, coords=coords, attrs=attrs)
+    kw = {"resampling": "nearest"}
+    if case["nodata"]["dst"] is not None:
+        kw["dst_nodata"] = case["nodata"]["dst"]
+    kw_da = dict(kw)
+    if case["dst_chunks"] is not None:
+        kw_da["chunks"] = tuple(case["dst_chunks"])
+    whole = xr_reproject(xx_np, dg, **kw)
+    chunked = _compute(xr_reproject(xx_da, dg, **kw_da), case["sched"])
+    require(whole.dims == chunked.dims and whole.shape == chunked.shape, "layout %s: in-memory result has dims %r shape %r, chunked %r %r", lay, whole.dims, whole.shape, chunked.dims, chunked.shape)
+    w, c = whole.values, chunked.values
+    same = _same(w, c)
+    if not same.all():
+        idx = _where(~same, 1)[0]
+        raise Violation("layout %s (%r, chunks time %r band %r): %d value(s) differ between the chunked and the in-memory result, e.g. at %r: chunked %r, in memory %r (dtype %s, src chunks %r, dst chunks %r)"
+                        % (lay, shape, chunk_of["time"], chunk_of["band"], int((~same).sum()), idx, c[idx].item(), w[idx].item(), case["dtype"], case["src_chunks"], case["dst_chunks"]))
+    T.cls("layout:" + lay)
+    if max(chunk_of["time"]) > 1 and max(chunk_of["band"]) > 1 and lay != "yxb":
+        T.cls("block_with_several_times_and_bands")
+    T.nontrivial((lay, nt, nb, case["tchunk4"], case["bchunk4"], case["klass"]))
 
 
 # ---- different CRS
@@ -1190,6 +1257,7 @@ def build(chk: Check) -> None:
     chk.sub("cross_crs_nearest", o_cross, strategy=s_cross(), n={"quick": 340, "thorough": 7000},
             budget_s={"quick": 45, "thorough": 180}, shrink=False)
     chk.sub("same_crs_wide_strip", o_same_crs, strategy=s_same_wide(), n={"quick": 40, "thorough": 1200}, budget_s={"quick": 45, "thorough": 200}, shrink=False)
+    chk.sub("extra_axes_layouts", o_layouts, strategy=s_layouts(), n={"quick": 160, "thorough": 4000}, budget_s={"quick": 40, "thorough": 150}, shrink=False)
     chk.sub("fill_bilinear", o_fill_other,
             strategy=st.one_of(s_same_linear(resampling="bilinear"), s_same_linear(resampling="bilinear"), s_cross(resampling="bilinear")),
             n={"quick": 220, "thorough": 4000}, budget_s={"quick": 35, "thorough": 100}, shrink=False)
